@@ -276,6 +276,10 @@ class SiteScan:
             if m == "insert":
                 if i == ("const", "int", 0):
                     return True, ""
+                # insert at `position(..)` of an element of the same vector, or at its length when there is none
+                si, sv = strip_ver(show(i)), strip_ver(show(v))
+                if re.match(r"^Option::unwrap_or\((<Iter<T> as Iterator>|Iterator)::position\(%s, closure .*\), len\(%s\)\)$" % (re.escape(sv), re.escape(sv)), si):
+                    return True, ""
             return False, "%s(%s, %s)" % (m, show(v)[:40], show(i)[:40])
         return False, kind
 
@@ -310,6 +314,8 @@ def undischarged_in(ctx, body):
 
 # Audited sites that may legitimately appear in another shape after a behaviour-preserving edit.
 ALT_SHAPES = [
+    {"pattern": r"^analyze_string::AnalyzeIter::process_matching_substring::\{closure#\d+\}::\{closure#0\}\|OverflowNeg<isize>\(a1\.0\)$",
+     "reason": "negation of a group number that was converted from usize to isize (hence >= 0): only isize::MIN overflows"},
     {"pattern": r"^re_compiler::ReCompiler::there_follows::\{closure#0\}\|index:index\(a1\.0\.pattern, add\((a2\.0, a1\.0\.idx|a1\.0\.idx, a2\.0)\)\)$",
      "reason": "the comparison loop of there_follows written with Iterator::all: guarded by idx + n <= len with i < n exactly as the loop form (the decision table of there_follows, including this form, is checked by THERE-FOLLOWS)"},
 ]
